@@ -22,6 +22,36 @@ check("C01", "exploration",
       "bounded exhaustive input-space exploration of the real generator + compiled generated code against a reference executor",
       "DESIGN.md 4 C01, 3.2-3.4, appendix A")
 
+check("C06", "exploration",
+      "Exhaustive single-point invalidation: every valid operation of the bounded operation space x every applicable "
+      "instance of the ten invalidating edits at every selection set (any depth, inside named and inline fragments, on "
+      "object / interface / union parents; plus document-level edits and schema variants without a mutation / "
+      "subscription root). The real generator must never return code for a document the reference validator rejects.",
+      "Trusted: the reference validator (the ten rules of the property, from the GraphQL spec text). Only edits it "
+      "confirms as invalidating are counted.",
+      "bounded exhaustive enumeration of invalidating edits x positions against the real validator/generator",
+      "DESIGN.md 4 C06")
+
+check("C13", "model_checking",
+      "The space is finite and enumerated completely: all 62 type expressions of list depth <= 4 x every kind of named "
+      "type x {response field, variable, input field, @oneOf member} x {SDL, introspection JSON}. The model is the "
+      "structural modifier rule; the emitted field types are read from the real generator's token stream; the model's "
+      "verdict is then validated on compiled code (rustc + serde) by injecting a null at every nesting level.",
+      "Trusted: syn's parse of the emitted tokens; rustc/serde for the conformance runs. ID response fields under a list "
+      "are compared at token level only (their compile problem is C16's).",
+      "explicit-state enumeration of a finite input space against a structural model, with conformance runs on compiled code",
+      "DESIGN.md 4 C13")
+
+check("C17", "fault_enumeration",
+      "Every input of an adversarial grammar (spread cycles of length 1-6 on every kind of type, with / without "
+      "__typename, direct or through fields, used or unused; input-type cycles; nesting to depth 64; degenerate SDL and "
+      "JSON schemas; every byte-prefix and single-token deletion of seed documents and schemas) is run in an isolated "
+      "worker that announces the case before starting it; death by signal, abort or a hang is a violation.",
+      "Trusted: the worker's BEGIN/answer protocol; a 10 s wall limit stands for 'loops'. The generator runs on the "
+      "worker's main thread (8 MB stack).",
+      "exhaustive fault / adversarial-input enumeration against the real generator in isolated processes",
+      "DESIGN.md 4 C17")
+
 NOT_APPLICABLE = []
 
 
